@@ -13,6 +13,8 @@ CONSTANTS
   FIX_TRYREMOVE_LOADING = TRUE
   FIX_ADD_CLOSED = TRUE
   FIX_TRYREMOVE_ERR = TRUE
+  CloseDeadline = TRUE
+  BOUND_LOADS = FALSE
   Loose = FALSE
 INVARIANT EmitDone
 CHECK_DEADLOCK FALSE
